@@ -19,7 +19,8 @@ ERR = -1000001
 SAMPLES = [(1, 2), (3, 0), (4,), ()]
 NEWID = 900
 
-ORIG_DOCS = {1: "sq doc", 2: "dq doc", 3: "ml doc\nmore doc\n", 4: 'say "hi"', 5: "raw \\d doc"}
+ORIG_DOCS = {1: "sq doc", 2: "dq doc", 3: "ml doc\nmore doc\n", 4: 'say "hi"', 5: "raw \\d doc",
+             6: "ws doc\n\n"}     # (6: the middle physical line is the indentation only)
 NEW_DOCS = {11: "new doc one", 12: "first line\nsecond line", 13: "it's a doc",
             14: 'new say "hi"', 15: "back\\nslash", 16: 'tri"""ple', 17: 'ends in """'}
 ESC_DOC = {25: "back\nslash"}
@@ -318,7 +319,8 @@ def render(case, for_oracle=False):
     if isdef:
         for n, ln in enumerate(text):
             body = def_line_text(c, n)
-            lines.append(ws_of(lay, ln["k"], ln["col"]) + body if body else "")
+            # (a docstring line without text is written as its indentation: white space only)
+            lines.append(ws_of(lay, ln["k"], ln["col"]) + body if body or ln["k"] == "doc" else "")
             if body:
                 keys[body] = ln["id"]
     else:
@@ -351,6 +353,16 @@ def plain_values(case, g):
     return [_call(fn, a) for a in SAMPLES]
 
 
+def plain_doc(case, g):
+    """__doc__ of the function as the user wrote it (Python alone), None for lambdas."""
+    if case["lay"]["form"] not in ("deftext", "funcobj"):
+        return None
+    src = render(case, for_oracle=True)["module"].replace("import modelx as mx\n", "")
+    ns = {"G": g}
+    exec(compile(src, "<c20-oracle>", "exec"), ns)
+    return ns["f"].__doc__
+
+
 def _call(fn, args):
     try:
         v = fn(*args)
@@ -364,7 +376,8 @@ def _call(fn, args):
 
 EMPTY_OBS = {"ok": False, "err": "", "islam": False, "cname": "", "defname": "", "decos": 0,
              "lines": [], "nl": False, "compiles": False, "defines": False, "params": [],
-             "vals": [], "savals": [], "doc": {"code": 0, "exact": True, "cont": 0}, "hash": 0}
+             "vals": [], "savals": [], "doc": {"code": 0, "exact": True, "cont": 0}, "hash": 0,
+             "docsame": True}
 
 
 class Observer:
@@ -426,6 +439,13 @@ class Observer:
             if islam:
                 s = s.rstrip(" \\")
             if not s:
+                docs = [ln["id"] for ln in self.case["text"] if ln["k"] == "doc"]
+                if doc_rng and doc_rng[0] < n < doc_rng[1] and self.case["lay"].get("doc") == 6 \
+                        and len(docs) == doc_rng[1] - doc_rng[0] + 1:
+                    # the white-space-only line inside the original docstring: its white space
+                    # is part of the string
+                    out.append([docs[n - doc_rng[0]], len(p)])
+                    continue
                 out.append([0, 0])
                 continue
             col = len(p) - len(p.lstrip())
@@ -494,4 +514,13 @@ class Observer:
         o["defines"] = callable(fn)
         o["savals"] = [_call(fn, a) for a in SAMPLES] if callable(fn) else []
         o["doc"] = self.doc_of(cells.doc)
+        # the documentation string is the one of the function as the user wrote it, character
+        # by character (only meaningful while the docstring is the original one: the trace
+        # specification looks at it for the capture event only)
+        if self.isdef:
+            if not hasattr(self, "origdoc"):
+                self.origdoc = plain_doc(self.case, g)
+            o["docsame"] = cells.doc == self.origdoc
+        else:
+            o["docsame"] = True
         return o
